@@ -87,17 +87,19 @@ theorem C03_list_preserve' (env : Env) (l : TList) (op : ListOp) (hI : Idem env 
     · exact listPrim_preserves env l hI _ _ v hc
   | setslice start stop step vs =>
     simp only [listStep]
-    cases hm : vs.mapM (formalize env l) with
-    | error e => exact ⟨hc, rfl⟩
-    | ok reps =>
-      simp only []
-      split
-      · exact primLoop_preserves env _ l _ _ hI hc
-      · split
-        · exact ⟨hc, rfl⟩
+    split
+    · exact ⟨hc, rfl⟩
+    · cases hm : vs.mapM (formalize env l) with
+      | error e => exact ⟨hc, rfl⟩
+      | ok reps =>
+        simp only []
+        split
+        · exact primLoop_preserves env _ l _ _ hI hc
         · split
-          · exact primLoop_preserves env _ l _ _ hI hc
-          · exact primLoop_preserves env _ l _ _ hI hc
+          · exact ⟨hc, rfl⟩
+          · split
+            · exact primLoop_preserves env _ l _ _ hI hc
+            · exact primLoop_preserves env _ l _ _ hI hc
   | delitem i =>
     simp only [listStep]
     cases hn : normIndex l.items.length i with
@@ -930,6 +932,10 @@ theorem C03_table_list_shrinkers : ∀ m ∈ Gen.listShrinkers, m.2 = true := by
 /-- The model refuses writes below a frozen field (`sealedAt`) and answers a key of the wrong kind
 with KeyError: both are facts of the current source. -/
 theorem C03_table_frozen_sealed : Gen.frozenChildSealed = true ∧ Gen.listPrimBadKeyIsKeyError = true := by decide
+
+/-- `listStep (.setslice …)` refuses an extended slice of the wrong size before it formalizes the
+values (C01-F225 repair, list.py `__setitem__`): a fact of the current source. -/
+theorem C03_table_slice_order : Gen.sliceSizeCheckedFirst = true := by decide
 
 theorem C03_table_dict :
     Gen.dictPrimFormalizes = true ∧ Gen.dictFormalizeApplies = true ∧
